@@ -119,7 +119,13 @@ func checkC12(c Node) Verdict {
 	}
 	v.Nontrivial = len(out.Rows) > 0
 	// second and third evaluation on equal inputs (fresh documents, fresh queries)
-	for rep := 0; rep < 2; rep++ {
+	reps := 2
+	for _, f := range sig {
+		if f == "qual:async" || f == "qual:spinasync" {
+			reps = 8 // goroutine interleavings differ from run to run
+		}
+	}
+	for rep := 0; rep < reps; rep++ {
 		doc2 := FromTagged(c["doc"]).(map[string]any)
 		out2 := Run(doc2, sql, false)
 		v.Execs++
